@@ -350,6 +350,18 @@ def builder_value(sm: SourceModel, f: Func):
             return t
         if t[0] == "cmp" and t[1] == "in" and t[2][0] == "attr" and t[2][2] == "name" and t[2][1][0] == "attr" and t[2][1][2] == "state" and all_state_names(t[3]):
             return av.C(True)
+        if t[0] == "call" and t[1] == "printer" and t[3]:
+            # the printer is called the way default_printer is declared: printer(lhs, rhs, use_variable_prefix=False)
+            kw = dict(t[3])
+            pos = list(t[2])
+            for pname in ("lhs", "rhs")[len(pos):]:
+                if pname in kw:
+                    pos.append(kw.pop(pname))
+                else:
+                    break
+            if kw.get("use_variable_prefix") == av.C(False):
+                kw.pop("use_variable_prefix")
+            return ("call", "printer", tuple(rw(x) for x in pos), tuple(sorted((k, rw(x)) for k, x in kw.items())))
         if not isinstance(t[0], str):
             return tuple(rw(x) if isinstance(x, tuple) else x for x in t)
         return (t[0],) + tuple(rw(x) if isinstance(x, tuple) else x for x in t[1:])
